@@ -5,12 +5,12 @@
       coq/gen/Gen_HamEigenValue.v    Hamiltonian::getEigenValue           which part, which cell
       coq/gen/Gen_HamEigenValues.v   Hamiltonian::getEigenValues          loop range, std::copy, running offset
       coq/gen/Gen_HPartCompute.v     HamiltonianPart::compute             the if / else chain as (condition, action) list
-      coq/gen/Gen_HPartPrepare.v     HamiltonianPart::prepare             loop over the block's states, the cell written
+      coq/gen/Gen_HPartPrepare.v     HamiltonianPart::prepare             loop over the block's states, the cell written, no entry skipped
       coq/gen/Gen_HamPrepareBcast.v, Gen_HamComputeBcast.v   Hamiltonian::prepare(comm) / compute(comm)   the broadcasts after the dispatch
     Statements only; proofs in PV.HPartGenProofs: each generated piece is shown equal to what HPart.v was written with by a closed
     computation, then the theorem of PV.HPartProofs is transported.  This file stops compiling when computeGroundEnergy loops over
     fewer blocks, HamiltonianPart::compute gains a branch (a "fast path"), a broadcast of compute(comm) becomes conditional, prepare
-    writes the transposed cell, ... -- whether or not a numeric run happens to notice.  (The solver itself stays certified per run:
+    writes the transposed cell or drops matrix elements below a threshold, ... -- whether or not a numeric run happens to notice.  (The solver itself stays certified per run:
     Properties_C03.v, checks/C03.py.)
 
     [..._src] : PV.HPartGen.  [gen_...] : PVgen.Gen_*. *)
@@ -60,6 +60,17 @@ Theorem source_hpart_prepare_loop : forall blocksize : nat,
   gen_hprep_sources blocksize = seq 0 blocksize /\ gen_hprep_cell = (PosOfResultState, PosOfSourceState).
 Proof. exact HPartGenProofs.gen_hprep_is_model. Qed.
 Print Assumptions source_hpart_prepare_loop.
+
+(** ... and the body of the inner loop stores EVERY entry (bra, melem) of F.actRight(ket): the translator accounts for every
+    statement of that body; a test in front of the store (`if (std::abs(melem) < 1e-8) continue;`, a "sparsity clean-up") is
+    translated into [gen_hprep_skip] and this statement stops checking -- the block would no longer be the Hamiltonian restricted
+    to the block, whatever the magnitude of the amplitudes the numeric runs happen to use *)
+Theorem source_hpart_prepare_stores_every_entry :
+  gen_hprep_skip_read = true /\
+  forall (A : Type) (ltb : A -> A -> bool) (kabs : A -> A) (lit : Z -> Z -> A) (eps melem : A),
+    gen_hprep_skip A ltb kabs lit eps melem = false.
+Proof. exact HPartGenProofs.gen_hprep_stores_every_entry. Qed.
+Print Assumptions source_hpart_prepare_stores_every_entry.
 
 (** compute(comm): every part is a job; for EVERY part the eigenvector matrix (all rows*cols cells) and the eigenvalues are broadcast
     from the rank that ran it, unconditionally; computeGroundEnergy() follows *)
